@@ -31,6 +31,8 @@ import Rpft.Cell
 namespace Rpft.Cli
 open Rpft Rpft.Cell
 
+deriving instance DecidableEq for Except
+
 /-! ## constants (tied to the source by `Props.C15.tables_agree`) -/
 
 def maxFieldValueLen : Nat := 640
@@ -205,18 +207,18 @@ structure ArgDef where
   default : Str := []
   deriving DecidableEq, Repr
 
+/-- `arg if arg != "" else arg_def.default_value` -/
+def argValue (a dflt : Str) : Str := if a = [] then dflt else a
+
 /-- `ctx`: the keys of the context so far (data row fields, then bound arguments).
 Arguments beyond the definitions are dropped (a warning), missing ones are padded with
 `""`; the "doubly defined" test comes before the "not provided" test, as in the code. -/
 def bindArgs : List ArgDef → List Str → List Str → Except Fault (List Str)
   | [], _, ctx => .ok ctx
   | d :: ds, args, ctx =>
-    let a := args.headD []
     if d.name ∈ ctx then .error (.argDoublyDefined d.name)
-    else
-      let v := if a ≠ [] then a else d.default
-      if v = [] then .error (.argMissing d.name)
-      else bindArgs ds args.tail (d.name :: ctx)
+    else if argValue (args.headD []) d.default = [] then .error (.argMissing d.name)
+    else bindArgs ds args.tail (d.name :: ctx)
 
 /-! ## UUID dictionary: `UUIDDict._record_uuid` -/
 
